@@ -2,7 +2,10 @@
 Tie: tfl.layers.Linear(...)(x) (float64, assigned kernel / bias) vs Tfl.Linear.call (driver op `lin.call`),
 one line per (example, unit).  Oracle: independent exact-rational formula on the real outputs; on kernels
 produced by the layer's own LinearConstraints the monotonicity / dominance / range-dominance /
-weighted-average consequences evaluated on real outputs of input pairs."""
+weighted-average consequences evaluated on real outputs of input pairs.  The weighted-average consequence is
+evaluated on EVERY column of an all-increasing order-1 layer, the degenerate ones included (pre-normalisation
+1-norm below the guard 1e-8: the constraint returns them un-normalised — all weights <= 0, clipped to 0, is the
+pinned finding F-C03-a seen through C20; a positive column below the guard is F-C20-a)."""
 import itertools
 import numpy as np
 from fractions import Fraction
@@ -13,7 +16,8 @@ RULE = ("every bound pattern (none / min only / max only / both, per input) for 
         "random patterns for 4-6 inputs; units 1-3 (units>1 through the 3-D input form, a different input row "
         "per unit), with and without bias; kernels dyadic/int/wide/tiny/huge/zero or produced by the layer's "
         "own LinearConstraints (monotonicities, monotonic / range dominances, norm order 1/2/inf) from a random "
-        "kernel; every example places each input inside / exactly on / outside its bounds; also at +-2^24..2^80 "
+        "kernel — on all-increasing order-1 layers also from kernels whose weights are all <= 0 and from positive "
+        "kernels with 1-norm below 1e-8 (the degenerate cases of the normalisation); every example places each input inside / exactly on / outside its bounds; also at +-2^24..2^80 "
         "(no finite stand-in for a missing bound goes unnoticed); input pairs for the consequences are extra "
         "examples of the same batch. Non-trivial = some input is actually clipped or a "
         "consequence pair was evaluated; distinct = (bound pattern, units, bias, kernel kind, clipped-position "
@@ -91,8 +95,17 @@ def gen_case(rng, pattern, constrained):
         rd += rand_dag_pairs(rng, cand, 3)
     order = rng.choice([None, 1, 1, 2, "inf"])
   kind = rng.choice(VALUE_KINDS + ["zero", "unit"])
+  if constrained and rng.random() < 0.12:
+    # the degenerate cases of the order-1 normalisation on an all-increasing layer (weighted average)
+    monos, order = [1] * n, 1
+    kind = rng.choice(["nonpos", "nonpos", "subguard"])
   if kind == "zero":
     kernel = [[Fraction(0)] * units for _ in range(n)]
+  elif kind == "nonpos":
+    kernel = [[-abs(gen_value(rng, rng.choice(["dyadic", "int", "wide"]))) for _ in range(units)] for _ in range(n)]
+  elif kind == "subguard":
+    kernel = [[Fraction(rng.randint(0, 4), 2 ** 34) for _ in range(units)] for _ in range(n)]
+    kernel[rng.randrange(n)] = [Fraction(rng.randint(1, 4), 2 ** 34) for _ in range(units)]
   else:
     kernel = [[gen_value(rng, kind) for _ in range(units)] for _ in range(n)]
   bias = [gen_value(rng, rng.choice(["dyadic", "int", "wide"])) for _ in range(units)] if use_bias else None
@@ -151,6 +164,8 @@ def normalize_case(case):
   cfg["input_max"] = [_fr(v) for v in cfg["input_max"]]
   case["kernel"] = [[Fraction(v) for v in row] for row in case["kernel"]]
   case["bias"] = None if case["bias"] is None else [Fraction(v) for v in case["bias"]]
+  if case.get("pre") is not None:
+    case["pre"] = [[Fraction(v) for v in row] for row in case["pre"]]
   case["X"] = [[[Fraction(v) for v in row] for row in ex] for ex in case["X"]]
   return case
 
@@ -178,6 +193,16 @@ def evaluate(case):
     layer.build(xin.shape)
     kf = np.array([[float(v) for v in row] for row in case["kernel"]], dtype=np.float64)
     if cfg["constrained"] and layer.kernel.constraint is not None and not case.get("projected"):
+      # the PRE-normalisation column (same real constraint, normalization_order=None): classifies the degenerate
+      # case of the weighted-average consequence
+      from tensorflow_lattice.python import linear_layer
+      c0 = layer.kernel.constraint
+      pre = linear_layer.LinearConstraints(
+          monotonicities=c0.monotonicities, monotonic_dominances=c0.monotonic_dominances,
+          range_dominances=c0.range_dominances, input_min=c0.input_min, input_max=c0.input_max,
+          normalization_order=None)(tf.constant(kf)).numpy()
+      if np.all(np.isfinite(pre)):
+        case["pre"] = [[Fraction(float(v)) for v in row] for row in pre]
       kf = layer.kernel.constraint(tf.constant(kf)).numpy()
       if not np.all(np.isfinite(kf)):
         return None, "nonfinite kernel returned by the layer's constraint: %r" % kf.tolist(), []
@@ -198,6 +223,17 @@ def evaluate(case):
           frl([case["kernel"][i][u] for i in range(n)]), opt(None if case["bias"] is None else case["bias"][u]),
           ",".join(opt(v) for v in lo), ",".join(opt(v) for v in hi), frl(ex[u])))
   return out, err, lines
+
+
+def fail_limited(ctx, tag, limit, clause, key, case, observed, detail):
+  """failures of a PINNED class (degenerate normalisation) are listed `limit` times per run and counted beyond that:
+  the failure list of a run is capped, and a flood of one known finding must not crowd out other failures."""
+  seen = ctx.__dict__.setdefault("_limited", {})
+  seen[tag] = seen.get(tag, 0) + 1
+  if seen[tag] <= limit:
+    ctx.fail(clause, key, case, observed, detail)
+  else:
+    ctx.count("not-listed:" + tag)
 
 
 def check_case(ctx, case, out, err, replies):
@@ -300,18 +336,27 @@ def check_case(ctx, case, out, err, replies):
               d, w, u, s * (out[dh, u] - out[dl, u]), s * (out[wh, u] - out[wl, u])))
   if cfg["normalization_order"] == 1 and all(m == 1 for m in monos):
     for u in range(units):
-      col = [K[i][u] for i in range(n)]
-      if sum(abs(c) for c in col) < Fraction(1, 10 ** 6):
-        ctx.count("wavg:zero-column")
-        continue
-      ctx.count("consequence:wavg")
+      # the degenerate case is EVALUATED, not skipped: pre-normalisation 1-norm below _NORMALIZATION_EPS
+      pre = case.get("pre")
+      degenerate = None
+      if pre is not None:
+        pcol = [pre[i][u] for i in range(n)]
+        if sum(abs(c) for c in pcol) < Fraction(1, 10 ** 8):
+          degenerate = "all_nonpositive" if all(c <= 0 for c in pcol) else "below_guard"
+      wkey = dict(ckey) if degenerate is None else dict(ckey, degenerate=degenerate)
+      ctx.count("consequence:wavg" if degenerate is None else "consequence:wavg:degenerate:" + degenerate)
       for b, ex in enumerate(X):
         cl = [float(clipf(ex[u][i], lo[i], hi[i])) for i in range(n)]
         v = out[b, u] - (0.0 if bias is None else float(bias[u]))
         tol = 1e-6 * max(1.0, max(abs(c) for c in cl), 0.0 if bias is None else abs(float(bias[u])))
         if v < min(cl) - tol or v > max(cl) + tol:
-          ctx.fail("weighted_average", ckey, case, out, "example %d unit %d: out-bias=%g outside [%g, %g]" % (
-              b, u, v, min(cl), max(cl)))
+          detail = "example %d unit %d: out-bias=%g outside [%g, %g]%s" % (
+              b, u, v, min(cl), max(cl), "" if degenerate is None else " (degenerate column: " + degenerate + ")")
+          if degenerate is None:
+            ctx.fail("weighted_average", wkey, case, out, detail)
+          else:
+            fail_limited(ctx, "wavg:" + degenerate, 8, "weighted_average", wkey, case, out, detail)
+          break
 
 
 def run(ctx):
